@@ -135,10 +135,11 @@ int main(int argc, char **argv)
             for (int kind = 0; kind < 3 + (int)L; kind++)
                 for (int al = 0; al < 2; al++) cases.push_back({v, L, kind, al});
         // huge inputs (thorough): lengths beyond 2^24 elements, where a 32-bit float / int conversion of the length would round
-        if (W == 32 && args.thorough())
+        const bool light = args.num("light", 0) != 0; // sanitizer builds: the huge lengths are skipped (time), everything else is kept
+        if (W == 32 && args.thorough() && !light)
             for (size_t L : {((size_t)1 << 24) + 1, ((size_t)1 << 24) + 9})
                 cases.push_back({v, L, 1, 0});
-        if (W == 32 && !args.thorough() && v != V_SEQ)
+        if (W == 32 && !args.thorough() && v != V_SEQ && !light)
             for (size_t L : {((size_t)1 << 24) + 1, ((size_t)1 << 24) + 9})
                 cases.push_back({v, L, 1, 2}); // align=2: differential against linear_hash_seq
         // lengths next to the integer constants of the library source (and 8x: block counts), see lib/mine.py
@@ -147,7 +148,7 @@ int main(int argc, char **argv)
             std::set<size_t> ls;
             for (u64 L : culist(args.kv, "lits"))
                 for (u64 m : {1ULL, 8ULL})
-                    for (long long d : {-1LL, 0LL, 1LL}) { long long x = (long long)(L * m) + d; if (x > (long long)Lmax && x <= 300000) ls.insert((size_t)x); }
+                    for (long long d : {-1LL, 0LL, 1LL}) { long long x = (long long)(L * m) + d; if (x > (long long)Lmax && x <= (light ? 40000 : 300000)) ls.insert((size_t)x); }
             for (size_t L : ls)
                 for (int kind : {1, 2, 3 + (int)L - 1})
                     cases.push_back({v, L, kind, 0});
@@ -157,6 +158,7 @@ int main(int argc, char **argv)
             for (size_t L : {(size_t)255, (size_t)256, (size_t)257, (size_t)511, (size_t)1000, (size_t)1023, (size_t)1024, (size_t)1025, (size_t)4099, (size_t)65537})
             {
                 if (L > 5000 && !args.thorough() && v != V_AVX) continue;
+                if (L > 5000 && light) continue;
                 for (int kind : {0, 1, 2, 3 + (int)L - 1, 3 + (int)L - 9, 3 + 8})
                     for (int al = 0; al < 2; al++) cases.push_back({v, L, kind, al});
             }
